@@ -209,6 +209,12 @@ func (g *gen) designed() []*node {
 		{nBig(p79), nRat(add(p80, 3), big.NewInt(2)), nF64(6.044629098073146e23)},
 		{nBig(p64), nRat(add(new(big.Int).Lsh(p64, 1), 1), big.NewInt(2)), nBig(add(p64, 1))},
 		{nBig(pow2(100)), nRat(add(pow2(103), 9), big.NewInt(8)), nBig(add(pow2(100), 1))},
+		// a bignum and the fixnum that equals its low 64 bits (added after seeded change C05-5 was missed)
+		{nBig(p64), nFix(0), nBig(add(p64, 1))},
+		{nBig(add(p64, 1)), nFix(1), nFix(0)},
+		{nBig(new(big.Int).Neg(add(p64, 1))), nFix(-1), nBig(new(big.Int).Neg(p64))},
+		{nBig(p63), nFix(-9223372036854775808), nBig(add(p63, 1))},
+		{nLst(nBig(add(p64, 7))), nLst(nFix(7)), nLst(nF64(7))},
 		{nStr("k"), nStr("K"), nStr("\u212a")},
 		{nStr("s"), nStr("S"), nStr("\u017f")},
 		{nChr('k'), nChr('K'), nChr(0x212A)},
